@@ -255,6 +255,8 @@ pub struct World<A: Flavor> {
     pub crash: Option<Rc<CrashShared>>,
     /// per executed op: live set before and after (C06)
     pub live_log: Vec<(Vec<LiveRec>, Vec<LiveRec>, String)>,
+    /// a raw rewind left free-list segments above the cursor (open known finding)
+    pub stale_list: bool,
 }
 
 pub fn base_opts(cfg: &Cfg) -> Options {
@@ -457,6 +459,7 @@ impl<A: Flavor> World<A> {
             remove_on_drop: false,
             crash: None,
             live_log: Vec::new(),
+            stale_list: false,
         };
         let mut w = w;
         if w.mode.count_unmount && cfg.backend == Backend::File && cfg.magic % 2 == 1 {
@@ -504,6 +507,7 @@ impl<A: Flavor> World<A> {
             remove_on_drop: false,
             crash: None,
             live_log: Vec::new(),
+            stale_list: false,
         };
         w.install_hooks();
         w
@@ -660,7 +664,9 @@ impl<A: Flavor> World<A> {
             );
         }
         // C10: well-formed free list
-        if !self.mode.lenient {
+        // (after a raw rewind that left segments above the cursor - the open known finding - the list is not judged:
+        // the history goes on to the divergence the finding is about)
+        if !self.mode.lenient && !self.stale_list {
             self.check_freelist(post, &rs)?;
         }
         Ok(())
@@ -963,9 +969,9 @@ impl<A: Flavor> World<A> {
                     res = "ok".into();
                 }
             }
-            Op::Rewind { pos } => {
+            Op::Rewind { pos, raw } => {
                 if !self.ro {
-                    self.do_rewind(*pos)?;
+                    self.do_rewind(*pos, *raw)?;
                     res = "ok".into();
                 } else {
                     self.do_rewind_ro(*pos)?;
@@ -1609,7 +1615,7 @@ impl<A: Flavor> World<A> {
         }
     }
 
-    fn do_rewind(&mut self, pos: Pos) -> R {
+    fn do_rewind(&mut self, pos: Pos, raw: bool) -> R {
         let s0 = self.snap();
         let ap = self.to_position(pos, &s0);
         let a = self.a();
@@ -1618,8 +1624,14 @@ impl<A: Flavor> World<A> {
         // the caller's obligations: nothing it still uses lies above the new cursor
         self.forget_above(target)?;
         if s0.fl.iter().any(|n| n.0 as usize + 8 + n.1 as usize > target) {
-            self.do_discard()?;
-            self.dead.retain(|d| d.1 <= target);
+            if raw {
+                // the open known finding (DESIGN.md 11.2): whatever fails from here on in this history carries its signature
+                self.classes.insert("rewind-left-segments-above-cursor");
+                self.stale_list = true;
+            } else {
+                self.do_discard()?;
+                self.dead.retain(|d| d.1 <= target);
+            }
         }
         let pre = self.snap();
         guard("rewind", "C17", || unsafe { a.rewind(ap) })?;
